@@ -14,6 +14,43 @@ def alg_bytes(L, scalars):
     return out
 
 
+def chk_entry_views(L, ck, R):
+    """algorithms(), iter() and `&Checksum: IntoIterator` list exactly the reference entries (read as a set: the order in which a
+    HashMap yields them is irrelevant here and is not forked)"""
+    I = L.I
+    I.fixed_order = True
+    try:
+        names = I.call("Checksum::<'_>::algorithms", [Ref([ck], 0)]).drain(I)
+        its = []
+        for how in ("Checksum::<'_>::iter", "<&Checksum<'_> as IntoIterator>::into_iter"):
+            it = I.call(how, [Ref([ck], 0)])
+            got = []
+            while True:
+                nx = I.call("<ChecksumIter<'_> as Iterator>::next", [Ref([it], 0)])
+                if nx.variant == 'None':
+                    break
+                k, v = nx.fields[0].fields
+                got.append((list(sbytes(k)), list(sbytes(I.call("ChecksumValue::<'_>::raw", [Ref([v], 0)])))))
+            its.append(got)
+    finally:
+        I.fixed_order = False
+    if len(names) != len(R.e) or any(len(g) != len(R.e) for g in its):
+        L.fail('algorithms() / iter() do not list as many entries as were inserted')
+        return
+    for nm in names:
+        if R.find(L, [zx(x) for x in chars_of(I, list(sbytes(nm)))]) is None:
+            L.fail('algorithms() lists a name that is not a lower-cased inserted algorithm')
+    for got in its:
+        for k, raw in got:
+            i = R.find(L, [zx(x) for x in chars_of(I, k)])
+            if i is None:
+                L.fail('iter() lists a name that is not a lower-cased inserted algorithm')
+            elif len(raw) != len(R.e[i][1]):
+                L.fail('iter() lists another value than the one inserted')
+            else:
+                L.check('iter() lists the inserted raw value', bytes_eq_term(raw, R.e[i][1]))
+
+
 def h_seq(L, ops, alen, vlen):
     """operation sequence on the typed value; every HashMap iteration order is a fork"""
     I = L.I
@@ -86,6 +123,7 @@ def h_seq(L, ops, alen, vlen):
                     L.fail('get() returns a different number of bytes than inserted')
                 else:
                     L.check('get() returns exactly the inserted bytes', bytes_eq_term(data, v))
+        chk_entry_views(L, ck, R)
         ok, canon = R.canonical(L)
         r = ck_text(I, clone_val(ck))
     except Panic as e:
